@@ -25,10 +25,13 @@ const (
 	hTernary
 	hNilCoalesce
 	hStructField
+	hTypedSliceElem   // element of a Go slice of the value's own type: addressable
+	hTypedStructField // field of the value's own type, reached through a struct pointer: addressable
+	hPointerDeref     // *p for a pointer to the value's own type: addressable
 	hNumHops
 )
 
-var hNames = []string{"variable", "slice-element", "map-entry", "script-call", "go-call-interface", "paren", "ternary", "nil-coalesce", "struct-field"}
+var hNames = []string{"variable", "slice-element", "map-entry", "script-call", "go-call-interface", "paren", "ternary", "nil-coalesce", "struct-field", "typed-slice-element", "typed-struct-field", "pointer-deref"}
 
 type zzHolder struct {
 	F interface{}
@@ -67,6 +70,29 @@ func zzThrough(e *env.Env, hop int, v reflect.Value, inner ast.Expr, depth int) 
 		h := &zzHolder{F: iv}
 		e.Define(name+"h", h)
 		return &ast.MemberExpr{Expr: zzIdent(name + "h"), Name: "F"}
+	case hTypedSliceElem, hTypedStructField, hPointerDeref:
+		// containers of the value's own static type hand out addressable values
+		// (the hop evaluates inner for its effects on the tape only: the container holds v)
+		if !v.IsValid() || !v.CanInterface() || v.Kind() == reflect.Interface {
+			return inner
+		}
+		switch hop {
+		case hTypedSliceElem:
+			s := reflect.MakeSlice(reflect.SliceOf(v.Type()), 1, 1)
+			s.Index(0).Set(v)
+			e.DefineValue(name+"ts", s)
+			return &ast.ItemExpr{Item: zzIdent(name + "ts"), Index: zzLit(int64(0))}
+		case hTypedStructField:
+			st := reflect.New(reflect.StructOf([]reflect.StructField{{Name: "F", Type: v.Type()}}))
+			st.Elem().Field(0).Set(v)
+			e.DefineValue(name+"tf", st)
+			return &ast.MemberExpr{Expr: zzIdent(name + "tf"), Name: "F"}
+		default:
+			p := reflect.New(v.Type())
+			p.Elem().Set(v)
+			e.DefineValue(name+"tp", p)
+			return &ast.DerefExpr{Expr: zzIdent(name + "tp")}
+		}
 	}
 	return inner
 }
@@ -309,7 +335,7 @@ func zzC20(chainLen int) {
 		hops[i] = zz.Choose(hNumHops)
 	}
 	id := t + "/" + uNames[c] + "/" + hNames[hops[0]]
-	if t == "item-assign-target" && (c == uStringEmpty || c == uStringABC || c == uStringNumeral || c == uSliceEmpty || c == uSliceNilTyped || c == uMapNilTyped) {
+	if t == "item-assign-target" && (c == uStringEmpty || c == uStringABC || c == uStringNumeral || c == uNamedString || c == uSliceEmpty || c == uSliceNilTyped || c == uMapNilTyped) {
 		// the store must re-bind its target (string rebuild, append at len):
 		// whether that is possible depends on the target expression being an
 		// l-value, not on the value's provenance
